@@ -27,6 +27,9 @@ fn main() {
         }
         i += 1;
     }
+    if id != "SMOKE" {
+        vcheck::report::capture_stdout();
+    }
     let code = match id.as_str() {
         "SMOKE" => vcheck::checks::smoke::run(),
         "C01" => vcheck::checks::hchecks::c01(tier, seed),
@@ -39,10 +42,11 @@ fn main() {
         "C12" => vcheck::checks::hchecks::c12(tier, seed),
         "C17" => vcheck::checks::hchecks::c17(tier, seed),
         "C10" => vcheck::checks::hchecks::c10(tier, seed),
+        "C11" => vcheck::checks::hchecks::c11(tier, seed),
         "C09" => vcheck::checks::c09::run(tier, seed),
         "C13" => vcheck::checks::c13::run(tier, seed),
         _ => {
-            println!("INCONCLUSIVE property={id} reason=unknown check");
+            vcheck::report::out(&format!("INCONCLUSIVE property={id} reason=unknown check"));
             2
         }
     };
